@@ -97,6 +97,10 @@ def _dataclass_parameters(class_: Class) -> list[Parameter]:
             ):
                 continue
 
+            # Bare `ClassVar` annotation (the visitor only unwraps and labels the subscripted form).
+            if isinstance(member.annotation, Expr) and member.annotation.canonical_name == "ClassVar":
+                continue
+
             # Start of keyword-only parameters.
             if isinstance(member.annotation, Expr) and member.annotation.canonical_path == "dataclasses.KW_ONLY":
                 kw_only = True
